@@ -19,7 +19,7 @@ pub fn def() -> PropertyDef {
                Oracle: an independent scanner gives the first/last token outside comments; an accepted parse must have a root span equal \
                to that extent and the text must contain no irregular token outside comments. distinct = text hash; non-trivial = the text \
                has >= 3 code tokens.",
-        assumptions: &["the harness scanner's reading of the lexical grammar (identifier alphabet, literals, nested comments, unterminated comment runs to EOF)"],
+        assumptions: &["the harness scanner's reading of the lexical grammar (identifier alphabet, literals, nested comments; a block comment still open at the end of the input is an irregularity, not a comment)"],
         floor: (5_000, 200_000),
         on_case_death: death_is_harness_error,
     }
@@ -106,6 +106,9 @@ fn report(stats: &mut Stats, generator: &str, index: u64, text: &str, what: &str
     }
     if toks.iter().any(|t| t.kind == scan::Kind::Unknown) {
         tags.push("unknown-character".to_string());
+    }
+    if toks.iter().any(|t| t.kind == scan::Kind::UnterminatedComment) {
+        tags.push("unterminated-block-comment".to_string());
     }
     let signature = if problem.starts_with("accepted although") { "accepted-with-irregular-token" } else { "accepted-with-unconsumed-text" };
     stats.violation(Violation {
